@@ -293,16 +293,16 @@ def check(ctx):
         tags[fname] = got
         ctx.ob("TAB.type-tag", f, f"{fname} tags its token with {want!r}", got == {want}, f"tags {sorted(got)}")
     f = mod.func("normalize_seq")
-    ok = any(Pat("(type(seq).__name__, _normalize_seq_func(seq))").match(r.value) is not None for r in returns(f))
+    ok = (all(Pat("(type(seq).__name__, _normalize_seq_func(seq))").match(r.value) is not None for r in returns(f)) and bool(returns(f)))
     ctx.ob("TAB.type-tag", f, "normalize_seq tags its token with the sequence type name", ok)
     f = mod.func("normalize_ordered_dict")
-    ok = any("type(d)" in unparse(r.value) and "d.items()" in unparse(r.value) for r in returns(f))
+    ok = (all("type(d)" in unparse(r.value) and "d.items()" in unparse(r.value) for r in returns(f)) and bool(returns(f)))
     ctx.ob("TAB.type-tag", f, "normalize_ordered_dict keeps the type and the item order", ok)
     # _tokenize: kwargs are sorted by name and kept apart from args
     f = mod.func("_tokenize")
     ok = bool(find("_normalize_seq_func(sorted(kwargs.items()))", f)) and bool(find("_normalize_seq_func(args)", f))
     ctx.ob("TAB.tokenize-kwargs", f, "_tokenize normalises args in order and kwargs sorted by name", ok)
-    ok = any(Pat("hashlib.md5(str(token).encode(), usedforsecurity=False).hexdigest()").match(r.value) is not None for r in returns(f))
+    ok = (all(Pat("hashlib.md5(str(token).encode(), usedforsecurity=False).hexdigest()").match(r.value) is not None for r in returns(f)) and bool(returns(f)))
     ctx.ob("TAB.tokenize-hash", f, "_tokenize hashes str(token)", ok)
 
     # ---------------- EFFECT.entropy
